@@ -5,7 +5,7 @@
     since) side by side and assert that EVERY answer of get / contains_key / iteration in
     the run is [justified] by the reference state before that step.  All configurations,
     hashers, weighers, clock patterns and placements of sync() are inside the quantifier. *)
-From MM Require Import Contract.Trace Contract.UnsyncTrace Contract.SyncTrace Contract.Glue
+From MM Require Import Contract.Trace Contract.UnsyncTrace Contract.SyncTrace Contract.Glue Contract.LastInsert
   Spec.HistoryFacts Unsync.UInvDefs.
 
 Theorem C01_unsync : forall c ops, cfg_ok c -> N.of_nat (length ops) < 2 ^ 24 ->
@@ -41,6 +41,35 @@ Theorem C01_never_inserted_never_shown : forall ttl tti now r k v,
   r !! k = None -> ~ justified ttl tti now r k v.
 Proof. exact unjustified_absent. Qed.
 
+(** the same, with no reference state in the statement: after EVERY history, what get,
+    contains_key and iteration show for a key is the value of the textually last insert of
+    that key in the history ([u_last_insert] / [s_last_insert] scan the operation list) *)
+Theorem C01_unsync_get_returns_last_insert : forall c ops k r run run' v,
+  cfg_ok c -> N.of_nat (length (ops ++ [UGet k])) < 2 ^ 24 ->
+  u_ref_after c ∅ urun_init ops = Some (r, run) ->
+  ustep c run (UGet k) = Ok (run', OVal (Some v)) -> u_last_insert k ops = Some v.
+Proof. exact u_get_returns_last_insert. Qed.
+Theorem C01_unsync_iter_shows_last_insert : forall c ops r run run' l,
+  cfg_ok c -> N.of_nat (length (ops ++ [UIter])) < 2 ^ 24 ->
+  u_ref_after c ∅ urun_init ops = Some (r, run) ->
+  ustep c run UIter = Ok (run', OList l) ->
+  forall k v, (k, v) ∈ l -> u_last_insert k ops = Some v.
+Proof. exact u_iter_shows_last_insert. Qed.
+Theorem C01_unsync_contains_needs_insert : forall c ops k r run run',
+  cfg_ok c -> N.of_nat (length (ops ++ [UContains k])) < 2 ^ 24 ->
+  u_ref_after c ∅ urun_init ops = Some (r, run) ->
+  ustep c run (UContains k) = Ok (run', OBool true) -> exists v, u_last_insert k ops = Some v.
+Proof. exact u_contains_needs_insert. Qed.
+Theorem C01_sync_get_returns_last_insert : forall c ops k r run run' v,
+  s_ref_after c ∅ srun_init ops = Some (r, run) ->
+  sstep c run (SGet k) = Ok (run', SOVal (Some v)) -> s_last_insert k ops = Some v.
+Proof. exact s_get_returns_last_insert. Qed.
+Theorem C01_sync_iter_shows_last_insert : forall c ops r run run' l,
+  s_ref_after c ∅ srun_init ops = Some (r, run) ->
+  sstep c run SIter = Ok (run', SOList l) ->
+  forall k v, (k, v) ∈ l -> s_last_insert k ops = Some v.
+Proof. exact s_iter_shows_last_insert. Qed.
+
 Check C01_unsync : forall c ops, cfg_ok c -> N.of_nat (length ops) < 2 ^ 24 -> u_trace_ok c ∅ urun_init ops.
 Check C01_sync : forall c ops, s_trace_ok c ∅ srun_init ops.
 Print Assumptions C01_unsync.
@@ -52,3 +81,8 @@ Print Assumptions C01_reference_invalidate_if.
 Print Assumptions C01_reference_invalidate_all_sync.
 Print Assumptions C01_reference_invalidate_all_unsync.
 Print Assumptions C01_never_inserted_never_shown.
+Print Assumptions C01_unsync_get_returns_last_insert.
+Print Assumptions C01_unsync_iter_shows_last_insert.
+Print Assumptions C01_unsync_contains_needs_insert.
+Print Assumptions C01_sync_get_returns_last_insert.
+Print Assumptions C01_sync_iter_shows_last_insert.
